@@ -61,6 +61,16 @@ class ZeroInt:
         return "0 (defaultdict default)"
 
 
+class MinLen:
+    """len() of a list of which only a lower bound is known (a timeline with earlier intervals)."""
+
+    def __init__(self, n):
+        self.n = n
+
+    def __repr__(self):
+        return "len>=%d" % self.n
+
+
 class SnapIds:
     """The sorted list of snapshot ids (only its extremes are modelled)."""
 
@@ -359,7 +369,7 @@ class GraphWorld:
 
     def list_len(self, ip, obj, node):
         if obj is self.timeline and getattr(obj, "has_prefix", False):
-            raise Unsupported(node, "len() of a timeline of unknown length")
+            return MinLen(len(obj.items))
         return None
 
     def load_slice(self, ip, obj, sl, env, node):
@@ -539,6 +549,9 @@ class GraphWorld:
         self.effect(("snap_range", repr(rng.lo), repr(rng.hi), outcomes[True], outcomes[False]), st)
         self.snap_effects.append((rng, "range", (outcomes[True], outcomes[False]), st.lineno))
 
+    def resolve_name(self, ip, name, node):
+        return None
+
     def exec_special_for(self, ip, st, it, env):
         raise Unsupported(st, "iteration over %r" % (it,))
 
@@ -556,6 +569,21 @@ class GraphWorld:
         self.__dict__.setdefault("yields", []).append(v)
 
     def compare(self, ip, a, sym, b, node):
+        if isinstance(a, MinLen) and isinstance(b, Const) and isinstance(b.v, int):
+            m, c = a.n, b.v
+            if sym == ">" and m > c:
+                return True
+            if sym == ">=" and m >= c:
+                return True
+            if sym == "<" and m >= c:
+                return False
+            if sym == "<=" and m > c:
+                return False
+            if sym == "==" and m > c:
+                return False
+            if sym == "!=" and m > c:
+                return True
+            raise Unsupported(node, "length of a timeline of unknown size compared with %d" % c)
         return None
 
     def call_minmax(self, ip, name, args, node):
